@@ -105,6 +105,7 @@ func (this *Server) setup() error {
 	if err := this.zeroGroup.Start(); err != nil {
 		return err
 	}
+	verifGate("setup.afterZeroStart")
 
 	this.nodesManager = raft.NewNodesManager(this.clusterConn, this.zeroGroup)
 
